@@ -23,6 +23,11 @@ type GenOptions struct {
 	FailingExporters float64 // probability that an exporter is configured fail:true
 	ExporterModes    bool    // randomise exporter mutates / async / keep / read_async (C06)
 	MaxExtensions    int     // 0: none; else 0..MaxExtensions extensions with a random dependency DAG
+	// CaseTwins: the id pools consist mostly of pairs that differ ONLY in letter case (krecv/A vs
+	// krecv/a, kshared/R vs kshared/r, kproc/X vs kproc/x, kexp/EU vs kexp/eu, kconn/C vs kconn/c,
+	// ksame/S vs ksame/s, kext/E0 vs kext/e0) and pipelines of one signal are named Blue, blue, Red,
+	// red, …: such ids are valid and distinct, the graph must keep them apart.
+	CaseTwins bool
 }
 
 func (o *GenOptions) defaults() {
@@ -120,9 +125,23 @@ func GenTopology(rng *rand.Rand, o GenOptions) *Topology {
 	for i := 1; i <= o.ExpPool; i++ {
 		expPool = append(expPool, fmt.Sprintf("%s/%d", TypeExporter, i))
 	}
+	if o.CaseTwins {
+		recvPool = []string{TypeReceiver + "/A", TypeReceiver + "/a", TypeReceiver + "/1"}
+		if o.SharedReceivers {
+			recvPool = append(recvPool, TypeShared+"/R", TypeShared+"/r")
+		}
+		procPool = []string{TypeProcessor + "/X", TypeProcessor + "/x", TypeProcessor + "/a"}
+		expPool = []string{TypeExporter + "/EU", TypeExporter + "/eu", TypeExporter + "/1"}
+	}
+	twinNames := []string{"Blue", "blue", "Red", "red", "Green", "green", "Grey", "grey"}
+	perSignal := map[Signal]int{}
 	np := 1 + rng.Intn(o.MaxPipelines)
 	for i := 0; i < np; i++ {
 		p := Pipeline{Signal: sigs[rng.Intn(len(sigs))], Name: fmt.Sprintf("p%d", i)}
+		if o.CaseTwins {
+			p.Name = twinNames[perSignal[p.Signal]%len(twinNames)]
+			perSignal[p.Signal]++
+		}
 		p.Receivers = pick(rng, recvPool, 0, 3)
 		if o.UniqueProcessors {
 			for k, n := 0, rng.Intn(4); k < n; k++ {
@@ -136,6 +155,9 @@ func GenTopology(rng *rand.Rand, o GenOptions) *Topology {
 	}
 	// connectors
 	pool := ConnectorPool(t.ConnPairs)
+	if o.CaseTwins {
+		pool = append([]string{"kconn/C", "kconn/c", "ksame/S", "ksame/s", "kconn/C", "kconn/c"}, pool[:2]...)
+	}
 	for _, id := range pool {
 		if rng.Intn(3) == 0 { // some connectors are configured but never used
 			t.Connectors[id] = nil
@@ -289,6 +311,9 @@ func GenTopology(rng *rand.Rand, o GenOptions) *Topology {
 		var ids []string
 		for i := 0; i < n; i++ {
 			id := fmt.Sprintf("%s/e%d", TypeExtension, i)
+			if o.CaseTwins {
+				id = fmt.Sprintf("%s/%c%d", TypeExtension, "Ee"[i%2], i/2)
+			}
 			ids = append(ids, id)
 			var deps []string
 			for j := 0; j < i; j++ {
